@@ -25,7 +25,9 @@
 (* EV (explicit evict(name) or a timer sweep); a writer that finds the pool full runs a sweep itself (forceRecycle)   *)
 (* while it still holds the store range lock.  Reopen = a new pool instance over the same media directory at rest.    *)
 EXTENDS Naturals, Integers, Sequences, FiniteSets, TLC
-CONSTANTS NF, SZ, BLK, RU, Readers, ReadSet, NReads, MaxEv, Async, MaxRefilling, Faults, Fiemap, CapFull, ReopenMax, Bug
+CONSTANTS NF, SZ, BLK, RU, Readers, ReadSet, NReads, MaxEv, Async, MaxRefilling, Faults, Fiemap, CapFull, ReopenMax, PunchMax, PunchGuard, Bug
+\* PunchMax: evict-to-end calls at rest (CachedFile::fallocate(offset, -1)); PunchGuard = FALSE models FileCacheStore::evict as written
+\* (ftruncate(offset) whatever the size of the media file), TRUE the repaired one (never extends the media file)
 \* Bug \in {"none", "nowlock", "nomrl", "earlymap", "asyncunlock", "noclamp", "shortok", "tailfront"} : broken variants (witnesses)
 None == "none"
 Files == 1..NF
@@ -49,17 +51,17 @@ VARIABLES asz, msize, mok, mbad, alloc, fmap, tdone,          \* store / media s
           pc, rd, cur, mode, ubuf, uwrong, ret, faulted, nread, rf, buf, waiton,   \* readers
           wpc, winl, wf, wb,                                   \* media writers (wf = file, lo, hi, lock id; wb = buffer)
           epc, evict, sweep,                                   \* evictions (by actor)
-          evleft, faultsleft, reopenleft, beyond
+          evleft, faultsleft, reopenleft, punchleft, beyond
 vars == <<asz, msize, mok, mbad, alloc, fmap, tdone, rwr, rww, rwq, rl, mrl, lru, isFull, running, refilling,
           pc, rd, cur, mode, ubuf, uwrong, ret, faulted, nread, rf, buf, waiton, wpc, winl, wf, wb, epc, evict, sweep,
-          evleft, faultsleft, reopenleft, beyond>>
+          evleft, faultsleft, reopenleft, punchleft, beyond>>
 media == <<msize, mok, mbad, alloc, fmap, tdone>>
 locks == <<rwr, rww, rwq, rl, mrl>>
 pool == <<lru, isFull, running, refilling>>
 rstate == <<pc, rd, cur, mode, ubuf, uwrong, ret, faulted, nread, rf, buf, waiton>>
 wstate == <<wpc, winl, wf, wb>>
 estate == <<epc, evict, sweep>>
-budget == <<evleft, faultsleft, reopenleft>>
+budget == <<evleft, faultsleft, reopenleft, punchleft>>
 
 NoRd == [f |-> 0, off |-> 0, len |-> 0, cnt |-> 0]
 NoW == [f |-> 0, lo |-> 0, hi |-> 0, id |-> 0]
@@ -75,7 +77,7 @@ Init == /\ asz = [f \in Files |-> 0] /\ msize = [f \in Files |-> 0] /\ mok = [f 
         /\ wpc = [r \in Readers |-> None] /\ winl = [r \in Readers |-> FALSE]
         /\ wf = [r \in Readers |-> NoW] /\ wb = [r \in Readers |-> {}]
         /\ epc = [a \in EvActors |-> None] /\ evict = [a \in EvActors |-> 0] /\ sweep = [a \in EvActors |-> 0]
-        /\ evleft = MaxEv /\ faultsleft = Faults /\ reopenleft = ReopenMax /\ beyond = FALSE
+        /\ evleft = MaxEv /\ faultsleft = Faults /\ reopenleft = ReopenMax /\ punchleft = PunchMax /\ beyond = FALSE
 
 Goto(r, s) == pc' = [pc EXCEPT ![r] = s]
 F(r) == rd[r].f
@@ -203,7 +205,7 @@ SrcRead(r) ==
                         /\ IF ~async THEN Goto(r, "waitw") /\ UNCHANGED ret
                            ELSE IF n = c THEN ret' = [ret EXCEPT ![r] = rd[r].cnt] /\ Goto(r, "done")
                            ELSE Goto(r, "reread") /\ UNCHANGED ret
-  /\ UNCHANGED <<asz, media, rwr, rww, rwq, mrl, lru, isFull, running, rd, mode, nread, rf, waiton, estate, evleft, reopenleft>>
+  /\ UNCHANGED <<asz, media, rwr, rww, rwq, mrl, lru, isFull, running, rd, mode, nread, rf, waiton, estate, evleft, reopenleft, punchleft>>
 \* inline media write finished (store.cpp:287): re-read the remainder cache-only
 WaitW(r) == /\ pc[r] = "waitw" /\ wpc[r] = None
             /\ IF cur[r][2] = 0 THEN ret' = [ret EXCEPT ![r] = rd[r].cnt] /\ Goto(r, "done") ELSE Goto(r, "reread") /\ UNCHANGED ret
@@ -223,7 +225,7 @@ SrcDirect(r) ==
              /\ ret' = [ret EXCEPT ![r] = IF mode[r] = "first" THEN k                       \* return tr.size
                                           ELSE IF k = c THEN rd[r].cnt ELSE -1]            \* tr.size + ret != count -> -1
         /\ Goto(r, "done")
-  /\ UNCHANGED <<asz, media, locks, pool, rd, cur, mode, nread, rf, buf, waiton, wstate, estate, evleft, reopenleft>>
+  /\ UNCHANGED <<asz, media, locks, pool, rd, cur, mode, nread, rf, buf, waiton, wstate, estate, evleft, reopenleft, punchleft>>
 Finish(r) == /\ pc[r] = "done" /\ Goto(r, "idle") /\ nread' = [nread EXCEPT ![r] = @ + 1]
              /\ rd' = [rd EXCEPT ![r] = NoRd] /\ cur' = [cur EXCEPT ![r] = <<0, 0>>] /\ ubuf' = [ubuf EXCEPT ![r] = {}]
              /\ uwrong' = [uwrong EXCEPT ![r] = {}] /\ ret' = [ret EXCEPT ![r] = 0] /\ faulted' = [faulted EXCEPT ![r] = FALSE]
@@ -302,7 +304,7 @@ EvStart == /\ evleft > 0 /\ epc[EV] = None /\ evleft' = evleft - 1
                                   /\ epc' = [epc EXCEPT ![EV] = "e_wq"] /\ UNCHANGED running
               \/ /\ ~running /\ running' = TRUE /\ sweep' = [sweep EXCEPT ![EV] = NF]
                  /\ epc' = [epc EXCEPT ![EV] = "e_pick"] /\ UNCHANGED evict
-           /\ UNCHANGED <<asz, media, locks, lru, isFull, refilling, rstate, wstate, faultsleft, reopenleft, beyond>>
+           /\ UNCHANGED <<asz, media, locks, lru, isFull, refilling, rstate, wstate, faultsleft, reopenleft, punchleft, beyond>>
 \* cache_pool.cpp:383-418 : next victim = LRU tail (an open file is moved to the front), or the sweep ends (isFull_ = false).
 \* sweep[a] = victims the sweep may still take (a sweep visits every file at most once: a file it has emptied has size 0)
 EPick(a) == /\ epc[a] = "e_pick"
@@ -347,7 +349,18 @@ Reopen == /\ reopenleft > 0 /\ AtRest /\ reopenleft' = reopenleft - 1
           /\ asz' = msize /\ tdone' = [f \in Files |-> FALSE]
           /\ fmap' = [f \in Files |-> IF Fiemap THEN {} ELSE {u \in Rng(0, msize[f]) : u \div BLK \in alloc[f]}]
           /\ lru' = [i \in 1..NF |-> i] /\ isFull' = FALSE
-          /\ UNCHANGED <<msize, mok, mbad, alloc, locks, running, refilling, rstate, wstate, estate, evleft, faultsleft, beyond>>
+          /\ UNCHANGED <<msize, mok, mbad, alloc, locks, running, refilling, rstate, wstate, estate, evleft, faultsleft, punchleft, beyond>>
+\* CachedFile::fallocate(offset, -1) at rest (no read in flight) -> FileCacheStore::evict(offset, -1): ftruncate(offset) on the media
+\* file + removeFilledRange; offsets are block aligned (as the API demands), up to the first block boundary past the end
+PunchEnd == /\ punchleft > 0 /\ AtRest /\ punchleft' = punchleft - 1
+            /\ \E f \in Files, b \in 0..(Up(SZ, BLK) \div BLK) :
+                 LET o == b * BLK IN
+                 IF PunchGuard /\ o >= msize[f] THEN UNCHANGED media
+                 ELSE /\ msize' = [msize EXCEPT ![f] = o]
+                      /\ mok' = [mok EXCEPT ![f] = {u \in @ : u < o}] /\ mbad' = [mbad EXCEPT ![f] = {u \in @ : u < o}]
+                      /\ alloc' = [alloc EXCEPT ![f] = {x \in @ : x * BLK < o}] /\ fmap' = [fmap EXCEPT ![f] = {u \in @ : u < o}]
+                      /\ UNCHANGED tdone
+            /\ UNCHANGED <<asz, locks, pool, rstate, wstate, estate, evleft, faultsleft, reopenleft, beyond>>
 Finished == AtRest /\ (\A r \in Readers : nread[r] = NReads) /\ UNCHANGED vars
 
 Next == \/ \E r \in Readers : \/ Start(r) \/ Clamp(r) \/ TryRLock(r) \/ QueryStep(r) \/ MRead(r) \/ LockRange(r) \/ RangeWait(r)
@@ -355,7 +368,7 @@ Next == \/ \E r \in Readers : \/ Start(r) \/ Clamp(r) \/ TryRLock(r) \/ QuerySte
                               \/ WStart(r) \/ WRLock(r) \/ WTrunc(r) \/ WMrl(r) \/ WPart1(r) \/ WPart2(r) \/ WFin(r)
                               \/ WRecycle(r) \/ WSweepDone(r) \/ WEnd(r)
         \/ EvStart \/ \E a \in EvActors : EPick(a) \/ EWq(a) \/ EWl(a) \/ ETrunc(a) \/ EFinal(a)
-        \/ Reopen \/ Finished
+        \/ Reopen \/ PunchEnd \/ Finished
 Spec == Init /\ [][Next]_vars
 
 \* ================================================================================================ properties
